@@ -212,14 +212,23 @@ pub fn type_call_inst(site: &CallSite, a: &Args, rid: Option<u32>) -> Inst {
     Inst { opcode: opc, rtype: None, rid, args: model::rekind_ids(opc, args) }
 }
 
+/// variant 0 = base arguments; variant v >= 1 = base with exactly the (v-1)-th non-result-id parameter changed
+/// (another id / literal / enumerant / list length / optional presence), so a dedup that ignores one operand is seen
 pub fn type_call_args(site: &CallSite, explicit: Option<u32>, variant: usize) -> Args {
     let mut a = Args::new(site.params);
     a.result_id = explicit;
-    a.choice = variant;
-    a.list_len = 1 + variant % 2;
-    // variant also perturbs ids/literals through the choice of which optional run is present
-    a.opt_upto = if variant % 2 == 0 { usize::MAX } else { 0 };
+    a.list_len = 1;
+    if variant >= 1 {
+        let positions: Vec<usize> = site.params.iter().enumerate().filter(|(_, p)| !is_result_id_param(p)).map(|(i, _)| i).collect();
+        if let Some(&p) = positions.get((variant - 1) % positions.len().max(1)) {
+            a.perturb = Some(p);
+        }
+    }
     a
+}
+
+pub fn type_call_variants(site: &CallSite) -> usize {
+    1 + site.params.iter().filter(|p| !is_result_id_param(p)).count()
 }
 
 pub struct Replay {
